@@ -997,8 +997,11 @@ func (e *Evaluator) evalStatement(stmt Statement) error {
 				}
 			}
 		case ValueObj:
-			for _, k := range sortedKeys(*iterable.Value.Obj) {
-				v := (*iterable.Value.Obj)[k]
+			// the object as it is when the loop starts: the body may assign to
+			// the variable that is being iterated
+			obj := *iterable.Value.Obj
+			for _, k := range sortedKeys(obj) {
+				v := obj[k]
 				if indexLocal != nil {
 					indexLocal.Value = v.Value
 				}
